@@ -49,6 +49,21 @@ structure Url where
   Path : Bytes
   deriving DecidableEq, Repr
 
+/-- `url.URL` as far as the websocket dial target depends on it (all fields arbitrary). -/
+structure WsUrl where
+  Scheme : Bytes
+  Opaque : Bytes
+  User : Option Bytes          -- userinfo, `none` = nil
+  Host : Bytes
+  Path : Bytes
+  RawPath : Bytes
+  OmitHost : Bool
+  ForceQuery : Bool
+  RawQuery : Bytes
+  Fragment : Bytes
+  RawFragment : Bytes
+  deriving DecidableEq, Repr
+
 /-- The parts of `*http.Request` that the translated predicates read. -/
 structure Req where
   Method : Bytes
